@@ -31,7 +31,7 @@ theorem spec_natOf_digitStr {s : Str} (hd : DigitStr s) (hne : s ≠ []) : Spec.
   rfl
 
 theorem spec_natOf_itoaNat (n : Nat) : Spec.SSA.natOf (itoaNat n) = some n := by
-  rw [spec_natOf_digitStr (digitStr_itoaNat n) (itoaNat_ne_nil n), natOfDigits_itoaNat]
+  rw [spec_natOf_digitStr (digitStr_itoaNat n) (itoaNat_ne_nil' n), natOfDigits_itoaNat]
 
 /-- **Integers.** The independent decoder reads every integer the writer emits (`strconv.Itoa`) as that integer -/
 theorem spec_intOf_itoa (v : Int) : Spec.SSA.intOf (itoa v) = some v := by
@@ -42,7 +42,7 @@ theorem spec_intOf_itoa (v : Int) : Spec.SSA.intOf (itoa v) = some v := by
     simp [Spec.SSA.intOf, spec_natOf_itoaNat]
     omega
   · rw [if_neg hv]
-    have hne := itoaNat_ne_nil v.toNat
+    have hne := itoaNat_ne_nil' v.toNat
     have hn := spec_natOf_itoaNat v.toNat
     cases hs : itoaNat v.toNat with
     | nil => exact absurd hs hne
